@@ -130,6 +130,22 @@ impl<Meta> Archive<Meta> {
         }
         let meta = ArchiveMeta::read(&mut file)?;
 
+        // The bucket count must not be zero and the index must fit into
+        // the file or else index positions are meaningless.
+        let index_end = meta.bucket_count.checked_add(1).and_then(|count| {
+            count.checked_mul(Self::BUCKET_SIZE)
+        }).and_then(|size| {
+            u64::try_from(size).ok()
+        }).and_then(|size| {
+            size.checked_add(usize_to_u64(MAGIC_SIZE) + ArchiveMeta::size())
+        });
+        let file_len = file.metadata()?.len();
+        if meta.bucket_count == 0
+            || !matches!(index_end, Some(end) if end <= file_len)
+        {
+            return Err(ArchiveError::Corrupt("invalid bucket count").into())
+        }
+
         Ok(Self {
             file: Storage::new(file, writable)?,
             meta,
